@@ -23,12 +23,19 @@ ob("vpackvg_size", ["C08"], entry="h_vpackvg", enforce="vpackvg", mode="bounded"
    bound="<= 3 members (msize <= 4), <= 2 attributes, names absent or <= 2 characters", timeout=900, **LIFE)
 ob("Vattach_life", ["C08", "C13", "C14"], entry="h_Vattach", enforce="Vattach", cex_unwind=4, **LIFE)
 
-# ---- bounded histories (harness-level sequences over the real Vattach/Vdetach/vpackvg)
-HB = "group of <= 2 members, <= 1 attribute, name absent or 1 character, class absent; <= 3 handles"
-HIST = dict(mode="bounded", bound=HB, unwind=5, cex_unwind=6, **LIFE)
-ob("hist_edit_reattach", ["C08", "C13"], entry="h_hist_edit_reattach", **HIST)
-ob("hist_new_group", ["C08", "C13"], entry="h_hist_new_group", **HIST)
-ob("hist_no_edit", ["C08", "C13"], entry="h_hist_no_edit", **HIST)
-ob("hist_edit_twice", ["C08"], entry="h_hist_edit_twice", **HIST)
-ob("hist_edit_reattach_c16", ["C16"], entry="h_hist_edit_reattach", defines=["LIFE_C16"], **HIST)
-ob("hist_new_group_c16", ["C16"], entry="h_hist_new_group", defines=["LIFE_C16"], **HIST)
+# ---- bounded histories (harness-level sequences over the real Vattach/Vdetach/vpackvg).  One run per group shape: constant record
+# offsets keep the inlined vpackvg cheap (see the note at lh_env in the unit).
+SHAPES = [("n0", ["LH_N=0"], "0 members, no name"), ("n2name", ["LH_N=2", "LH_NAME"], '2 members, name "n"'),
+          ("n1attr", ["LH_N=1", "LH_ATTR"], "1 member, 1 attribute (version-4 record)")]
+HB = "static environment; edited group: %s; member tags/refs, attribute, refs, version arbitrary; 2 handles (+ stale ids); buffer large enough"
+for _t, _d, _b in SHAPES:
+    H = dict(mode="bounded", bound=HB % _b, unwind=5, cex_unwind=6, **LIFE)
+    ob(f"hist_edit_reattach_{_t}", ["C08", "C13"], entry="h_hist_edit_reattach", defines=_d, **H)
+    ob(f"hist_edit_twice_{_t}", ["C08"], entry="h_hist_edit_twice", defines=_d, **H)
+    ob(f"hist_edit_reattach_c16_{_t}", ["C16"], entry="h_hist_edit_reattach", defines=_d + ["LIFE_C16"], **H)
+HN = dict(mode="bounded", unwind=5, cex_unwind=6, **LIFE)
+ob("hist_new_group", ["C08", "C13"], entry="h_hist_new_group", defines=["LH_POOL"],
+   bound="new empty group; vgp.c's malloc served from typed static objects; 2 handles", **HN)
+ob("hist_new_group_c16", ["C16"], entry="h_hist_new_group", defines=["LH_POOL", "LIFE_C16"],
+   bound="new empty group; vgp.c's malloc served from typed static objects; 2 handles", **HN)
+ob("hist_no_edit", ["C08", "C13"], entry="h_hist_no_edit", bound="group of <= 2 members; 2 handles; file writable or read-only", **HN)
